@@ -7,6 +7,7 @@ import (
 	"fmt"
 	"go/token"
 	"go/types"
+	"math"
 	"sort"
 	"strconv"
 	"strings"
@@ -222,6 +223,12 @@ func init() {
 	reg(rtPkg+"ClockRange", func(in *Interp, fr *frame, args []value) value {
 		in.clockLo, in.clockHi = args[0].(*Term), args[1].(*Term)
 		return nil
+	})
+	reg(rtPkg+"LastNow", func(in *Interp, fr *frame, args []value) value {
+		if in.clockLast == nil {
+			return in.tt.Const(64, 0)
+		}
+		return in.clockLast
 	})
 	reg(rtPkg+"Done", func(in *Interp, fr *frame, args []value) value { panic(pathEnd{"harness done"}) })
 	reg(rtPkg+"Blocked", func(in *Interp, fr *frame, args []value) value {
@@ -729,6 +736,40 @@ func init() {
 		in.pc = append(in.pc, in.tt.SLe(in.tt.Const(64, 0), v))
 		in.model = nil
 		return v
+	})
+	f1 := func(name string, f func(float64) float64) {
+		reg(name, func(in *Interp, fr *frame, args []value) value { return f(args[0].(float64)) })
+	}
+	f2 := func(name string, f func(float64, float64) float64) {
+		reg(name, func(in *Interp, fr *frame, args []value) value { return f(args[0].(float64), args[1].(float64)) })
+	}
+	f2("math.Max", math.Max)
+	f2("math.Min", math.Min)
+	f2("math.Pow", math.Pow)
+	f2("math.Mod", math.Mod)
+	f1("math.Abs", math.Abs)
+	f1("math.Floor", math.Floor)
+	f1("math.Ceil", math.Ceil)
+	f1("math.Trunc", math.Trunc)
+	f1("math.Sqrt", math.Sqrt)
+	f1("math.Log", math.Log)
+	f1("math.Exp", math.Exp)
+	f1("math.Round", math.Round)
+	reg("math.IsNaN", func(in *Interp, fr *frame, args []value) value { return in.tt.Bool(math.IsNaN(args[0].(float64))) })
+	reg("math.IsInf", func(in *Interp, fr *frame, args []value) value {
+		return in.tt.Bool(math.IsInf(args[0].(float64), int(args[1].(*Term).sval())))
+	})
+	reg("math.Inf", func(in *Interp, fr *frame, args []value) value { return math.Inf(int(args[0].(*Term).sval())) })
+	reg("math.NaN", func(in *Interp, fr *frame, args []value) value { return math.NaN() })
+	reg("math.Float64bits", func(in *Interp, fr *frame, args []value) value {
+		return in.tt.Const(64, math.Float64bits(args[0].(float64)))
+	})
+	reg("math.Float64frombits", func(in *Interp, fr *frame, args []value) value {
+		t := args[0].(*Term)
+		if !t.IsConst() {
+			in.unsupported("Float64frombits of symbolic value")
+		}
+		return math.Float64frombits(t.val)
 	})
 	reg("os.Hostname", func(in *Interp, fr *frame, args []value) value {
 		return tuple{in.mkStr("verifhost"), iface{}}
